@@ -11,7 +11,12 @@ RULE = ("complete layer: every well-formed document with <= 3 nodes over keys {a
         "{null,true,false,0,1,2,1.5,'a','ab',''} (maps with keys in alphabet order, sequences, sets) x every 1-segment "
         "path of the 58-item vocabulary, and every document with <= 3 nodes over the reduced alphabet "
         "(keys a,b,1; values null,true,1,1.5,'a','ab') x every 2-segment path of the core vocabulary (23 items; thorough: "
-        "reduced alphabet x full vocabulary squared, and full alphabet x core vocabulary squared); plus seeded-random documents (<= 25 nodes: Arrays-of-Hashes, sets, anchors and "
+        "reduced alphabet x full vocabulary squared, and full alphabet x core vocabulary squared); the blank-edge layer: every document "
+        "with <= 3 nodes over keys {a,' a'} and values {' a','a ',' ','a b',' 1',1} x 189 one-segment searches whose term has a "
+        "quoted or escaped blank at its edge (' ', ' a', 'a ', \\ a, a\\ , \" a\", ' 1'; interior blank as control) x all operators, "
+        "on '.' and on an attribute, plain and inverted, and regular expressions with edge blanks - the same terms and values also "
+        "occur in the random layer; when the real parser delivers a SEARCH segment that differs from the search written in the path "
+        "text (as read by the parser model), the specification is evaluated on the search as written; plus seeded-random documents (<= 25 nodes: Arrays-of-Hashes, sets, anchors and "
         "aliases, nested lists) x random paths of <= 5 segments (indexes and slice bounds in -9..9).  Each case is asked through "
         "get_nodes(mustexist=True) and exists() in dot notation, get_nodes(mustexist=True) in slash notation (when both texts parse "
         "to the same segments) and get_nodes(mustexist=False) on a fresh copy when the model's optional evaluation creates nothing.  "
@@ -31,7 +36,7 @@ RULE = ("complete layer: every well-formed document with <= 3 nodes over keys {a
 THOROUGH_ANCH2 = 120      # anchored variants (a seeded sample, not part of the complete layer) in the thorough two-segment product
 
 
-def build_jobs(chk, opts, nrand_quick=60000, nrand_thorough=700000, grid=False):
+def build_jobs(chk, opts, nrand_quick=60000, nrand_thorough=700000, grid=False, blank=False):
     rng = random.Random(chk.seed)
     tier = chk.tier
     jobs = []
@@ -63,6 +68,12 @@ def build_jobs(chk, opts, nrand_quick=60000, nrand_thorough=700000, grid=False):
         len(two_core) if tier == "quick" else len(ev.VOCAB) ** 2)
         + ("" if tier == "quick" else "; %d documents x %d core two-segment paths" % (len(docs3), len(two_core))))
     chk.extra_cov["exhaustive_cases"] = len(cases)
+    # searches whose term has a significant blank at its edge, on documents whose values / keys have such blanks
+    if blank:
+        docs_b = ev.small_docs(3, ev.BLANK_KEYS, ev.BLANK_VALUES)
+        cases += [(d, [p]) for d in docs_b for p in ev.BLANK_VOCAB]
+        chk.extra_cov["blank_edge_layer"] = "%d documents (<= 3 nodes, values/keys with leading / trailing blanks) x %d search items" % (
+            len(docs_b), len(ev.BLANK_VOCAB))
     rnd = []
     for _ in range(nrand):
         d = ev.random_doc(rng, rng.choice([6, 10, 15, 25]))
@@ -114,8 +125,8 @@ def absorb(chk, results):
         nontrivial += stats["nontrivial"]
         chk.out_of_model += stats["oom"]
         for k in ("queries", "nonempty", "ypath", "crash", "unparsable", "slash_skipped", "opt_compared", "virtual",
-                  "c09_mutations", "deep_results", "requeries"):
-            chk.count(k, stats[k])
+                  "c09_mutations", "deep_results", "requeries", "search_as_written"):
+            chk.count(k, stats.get(k, 0))
         for k, v in stats["kinds"].items():
             chk.count("segment:" + k, v)
         for k, v in stats["docsize"].items():
@@ -159,7 +170,7 @@ def run(chk: core.Check):
     if chk.replay_in:
         return replay(chk, opts)
     chk.exhaustive = True
-    jobs = build_jobs(chk, opts)
+    jobs = build_jobs(chk, opts, blank=True)
     absorb(chk, core.pmap(ev.compare_chunk, jobs))
     collectors(chk)
     return chk
